@@ -1,5 +1,7 @@
 import NgoVerif.Meta.Compose
 import NgoVerif.Meta.Algebra
+import NgoVerif.Props.C08
+import NgoVerif.Props.C09
 /-!
 # C02 — optimisation statements keep the cost of every answer set
 
@@ -32,5 +34,32 @@ theorem C02_flatten_counterexample :
     ∃ (groups : Finset Bool) (elems : Bool → Finset Int) (w : Int → Int),
       ∑ t ∈ groups.biUnion elems, w t ≠ ∑ g ∈ groups, ∑ t ∈ elems g, w t :=
   Alg.sum_flatten_counterexample
+
+/-! ## costs are kept by the rewrites that are proved for typed programs -/
+
+open Proofs.C08anonObj in
+/-- `cleanup`, a weaker copy deleted from an objective: the same cost tuples in every total interpretation -/
+theorem C02_cleanup_weaker_copy (P : Sem.PParams) (A : ObjAnon) (bb : List BLit)
+    (hsame : Proofs.C08impl.sameLits bb (A.qLit :: A.body) = true) (h : objCheck A = true) (T : Sem.Interp)
+    (tup : Sym × Sym × List Sym) :
+    Sem.costTuples P T (.minimize A.line A.col A.weight A.prio A.terms bb) tup ↔ Sem.costTuples P T A.res tup :=
+  C08_weaker_copy_in_objective_costs P A bb hsame h T tup
+
+open Proofs.C08impl in
+/-- `cleanup`, an implied literal deleted from an objective: the same cost tuples in every stable model -/
+theorem C02_cleanup_implied (P : Sem.Params) (hdn : DnegOld P) (R : ObjRewrite) (bb : List BLit)
+    (hsame : sameLits bb (R.qLit :: R.body) = true) (h : objImpliedCheck R = true) (T : Sem.Interp)
+    (hS : Sem.Stable (Sem.stdParams P) R.src T) (tup : Sym × Sym × List Sym) :
+    Sem.costTuples (Sem.stdParams P) T (.minimize R.line R.col R.weight R.prio R.terms bb) tup ↔
+      Sem.costTuples (Sem.stdParams P) T R.resStm tup :=
+  (C08_remove_implied_in_objective P hdn R bb hsame h T).2 hS tup
+
+open Proofs.C09sem in
+/-- `unused`, rules of an unobservable predicate removed: an objective that does not mention it has the same cost tuples in
+two interpretations that agree off it (the answer sets correspond one-to-one by `C09_removal_sound/complete`) -/
+theorem C02_unused_costs (P : Sem.Params) (n : Sem.Sig) (s : Stm) (hav : stmAvoids n s = true) (T T' : Sem.Interp)
+    (hag : Sem.AgreeOffName n T T') (tup : Sym × Sym × List Sym) :
+    Sem.costTuples (Sem.stdParams P) T s tup ↔ Sem.costTuples (Sem.stdParams P) T' s tup :=
+  C09_removal_costs P n s hav T T' hag tup
 
 end NgoVerif
